@@ -551,6 +551,44 @@ func vC09Scenario(name string, seed uint64) string {
 			return "closed-connection-reports-" + st.String()
 		}
 		return ""
+	case "session-cut-before-the-loop-waits-for-it":
+		// C06: the session is lost after the reconnect loop has published READY and before it starts waiting for the loss
+		// (it is held at that select): the loss must not be missed - the client dials again and is READY again
+		w, err := vC09Setup(r)
+		if err != nil {
+			return "setup"
+		}
+		const at = "addrConn.resetTransport#select#2"
+		verifrt.Start(nil)
+		verifrt.Hold(at, 1)
+		if !vWaitUntil(5*time.Second, func() bool { return verifrt.Held(at) >= 1 }) {
+			verifrt.Release(at)
+			verifrt.Stop()
+			return "gate-script-infeasible/loop-not-held"
+		}
+		dials := w.px.DialCount()
+		w.px.CutAll()
+		// the transport has ended and said so (the state has left READY) while the loop is still held
+		vWaitUntil(3*time.Second, func() bool { return w.cc.GetState() != connectivity.Ready })
+		time.Sleep(30 * time.Millisecond)
+		verifrt.Release(at)
+		verifrt.Stop()
+		if !vWaitUntil(8*time.Second, func() bool { return w.px.DialCount() > dials && w.cc.GetState() == connectivity.Ready }) {
+			st := w.cc.GetState().String()
+			vClose(w.cc, 3*time.Second)
+			return "loss-of-the-session-missed-by-the-reconnect-loop/state=" + st
+		}
+		ctx3, cn3 := context.WithTimeout(context.Background(), 2*time.Second)
+		err3 := w.cc.Invoke(ctx3, "Echo", vAppMsg("again", nil, ""), &message.Response{})
+		cn3()
+		if err3 != nil {
+			return "call-fails-after-recovery/" + err3.Error()
+		}
+		start := time.Now()
+		if !vClose(w.cc, 6*time.Second) {
+			return "close-hangs/" + strings.Join(vParked(), ",")
+		}
+		return w.aftermath(time.Since(start), bound)
 	case "peer-answers-each-call-several-times":
 		// a peer which sends several copies of every response (large ones, so that copies arrive while the caller is still
 		// decoding the first); the calls run under a context which never ends. Every call returns its reply, and Close
@@ -815,6 +853,11 @@ func TestVerifC09Child(t *testing.T) {
 // C08: what a closed connection reports, with a state update in flight
 func TestVerifC08Closed(t *testing.T) {
 	vC09Run(t, []string{"state-update-in-flight", "state-while-close-waits-for-a-handler", "undecodable-frame-on-a-ready-connection", "close-after-dial-context-ended-and-connection-lost"}, "closed/", 88)
+}
+
+// C06: the session is lost in the gap between READY and the loop's wait for the loss
+func TestVerifC06Gap(t *testing.T) {
+	vC09Run(t, []string{"session-cut-before-the-loop-waits-for-it"}, "gap/", 61)
 }
 
 // C01 / C07: a peer which answers every call several times - each call still gets its own reply
